@@ -25,10 +25,14 @@ def B(b) -> list:
     return list(bytes(b))
 
 
+class NotReplayable(Exception):
+    """The recorded case cannot be re-executed on its own (it depends on the run around it): the whole check is re-run with the recorded seed."""
+
+
 class Ctx:
     """Per-run context of one property check."""
 
-    def __init__(self, pid: str, tier: str, seed: int):
+    def __init__(self, pid: str, tier: str, seed: int, replay_mode: bool = False):
         self.pid = pid
         self.tier = tier
         self.seed = seed
@@ -49,9 +53,10 @@ class Ctx:
         self.drift = []
         self.deferred = []
         self.findings = load_findings().get(pid, [])
-        rd = VERIF / "replay" / pid
-        if rd.exists():
-            for f in rd.glob("*.json"):
+        # a replay run keeps the recorded cases (one of them is being replayed) and writes what it finds next to them
+        self.replay_dir = VERIF / "replay" / pid / "re" if replay_mode else VERIF / "replay" / pid
+        if self.replay_dir.exists():
+            for f in self.replay_dir.glob("*.json"):
                 f.unlink()
 
     @property
@@ -187,7 +192,7 @@ class Ctx:
                 self.extra.setdefault("known_finding_occurrences", 0)
                 self.extra["known_finding_occurrences"] += 1
                 return
-        d = VERIF / "replay" / self.pid
+        d = self.replay_dir
         d.mkdir(parents=True, exist_ok=True)
         path = d / f"{len(self.violations):04d}.json"
         if len(self.violations) < 50:
